@@ -237,7 +237,7 @@ impl Prop for Iter {
             if let (Some(h), Some(sk)) = (w["base_hex"].as_str(), w["skip"].as_array()) {
                 let bytes = crate::props::c03::hex_decode(h)?;
                 let skip: Vec<u32> = sk.iter().filter_map(|x| x.as_u64().map(|v| v as u32)).collect();
-                return Some(self.c25_eval(&bytes, "witness", skip, false));
+                return Some(self.c25_eval(&bytes, "witness", skip, w["pre_import"].as_bool().unwrap_or(false), false));
             }
         }
         match (w["seed"].as_u64(), w["idx"].as_u64()) {
@@ -274,10 +274,10 @@ impl Iter {
         };
         let locals: Vec<u32> = (0..raw.funcs.len() as u32).map(|k| raw.n_imp_funcs + k).collect();
         let skip = random_skip(&mut rng, &locals, raw.n_imp_funcs);
-        self.c25_eval(&g.bytes, g.profile, skip, want_sample)
+        self.c25_eval(&g.bytes, g.profile, skip, idx % 5 == 4, want_sample)
     }
 
-    fn c25_eval(&self, base: &[u8], profile: &str, skip: Vec<u32>, want_sample: bool) -> CaseOut {
+    fn c25_eval(&self, base: &[u8], profile: &str, skip: Vec<u32>, pre_import: bool, want_sample: bool) -> CaseOut {
         let mut out = CaseOut::default();
         struct G<'x> {
             bytes: &'x [u8],
@@ -301,8 +301,16 @@ impl Iter {
         out.obn("visits_expected", exp.len() as u64);
         let bytes = g.bytes.to_vec();
         let skip_ids: Vec<FunctionID> = skip.iter().map(|s| FunctionID(*s)).collect();
+        let pre_type: Option<u32> = if pre_import { raw.types.iter().position(|t| t.contains(" func(")).map(|i| i as u32) } else { None };
+        if pre_type.is_some() {
+            out.ob("pre-edit:add_import_func");
+        }
         let r = catch(|| {
             let mut m = wirm::Module::parse(&bytes, true).map_err(|e| format!("{}", e))?;
+            if let Some(t) = pre_type {
+                // an import added before the iterator is created: the local functions keep their ids until the module is encoded
+                m.add_import_func("pre".to_string(), "added".to_string(), wirm::ir::id::TypeID(t));
+            }
             let mut it = ModuleIterator::new(&mut m, &skip_ids);
             let first = walk_module(&mut it);
             it.reset();
@@ -311,7 +319,7 @@ impl Iter {
         });
         let detail = |extra: serde_json::Value| {
             json!({"skip": skip, "local_functions": locals, "body_lengths": raw.funcs.iter().map(|f| f.ops.len()).collect::<Vec<_>>(),
-                   "what": extra, "explicit_witness": {"base_hex": bytes_hex(g.bytes), "skip": skip}})
+                   "what": extra, "explicit_witness": {"base_hex": bytes_hex(g.bytes), "skip": skip, "pre_import": pre_import}})
         };
         match r {
             Err(p) => out.violate(format!("{}:{}", shape, p.sig()), detail(json!({"panic": p.json()}))),
